@@ -30,19 +30,24 @@ TOL_OPS = {"sum", "mean", "cumsum", "rolling_sum", "sum2", "cumsum2", "sum_squar
 KOPS = ["size", "count", "sum", "sum_squares", "mean", "min", "max", "first", "last"]
 NG = 3
 PERMS = [list(p) for p in itertools.permutations(range(4))]
-SCOPE = {"quick": "T: codes over {-1,0,1} n<=4 exhaustive x {float,intnull (every pattern with <=1 null, all null), int32, bool, uint, datetime} x masks {none; alternating boolean, positions for float/int32} x n_threads 2..4 x 9 kernels. "
-                  "O: all 24 completion orders of 4 tasks on 6 kernel inputs x {float,int32} (n_threads=4) and on 3 public chunk-factorised inputs. "
-                  "P: float keys over {null,0,1,2} n<=4 exhaustive x sort on/off x value-null patterns {none, one null, all null} x masks {none, boolean, slice} under chunked factorisation; int/str/datetime keys n<=3; "
-                  "designed keys of 8..12 rows (sorted, sorted prefix + disorder, unsorted; with null keys); Arrow chunked keys and/or values: int keys over {0,1,2} n<=3 exhaustive (+ float/datetime keys, null keys) x every pair of chunkings into <=3 chunks "
-                  "(+ layouts with an empty chunk); ops size,count,sum,mean,min,max,first,last,cumsum,cummax,rolling_sum,rolling_max,shift,head,nth,groups. "
-                  "S: 10^6-1, 10^6, 10^6+1, 2*10^6, 3*10^6 rows x {unsorted float keys with nulls, sorted int keys, sorted prefix + disorder, categorical} with groups confined to one block / the last 3 rows; seeded random cases up to 40 rows",
-         "thorough": "as quick with T n<=5, P float keys n<=5 and other key kinds n<=4, Arrow chunkings for n<=4, 12 inputs for the 24 orders, random cases up to 96 rows"}
+SCOPE = {"quick": "T: codes over {-1,0,1}, n<=4 exhaustive (n=4: float and int32 values, 2 and 4 threads; datetime n<=2) x {float, intnull, int32, bool, uint, datetime} x null patterns (all for n<=2; <=1 null or all null above) "
+                  "x masks {none; alternating boolean and positions [n-1,0] for float/int32, n in 2..3} x n_threads in {2,3,4} x 9 kernels. "
+                  "O: all 24 completion orders of 4 tasks on 6 kernel inputs x {float,int32} (n_threads=4) and on 3 chunk-factorised public inputs of 8..10 rows; every other case runs under a rotating forced order (two runs in three). "
+                  "P/F (lowered factorisation threshold): float keys over {null,0,1,2}, n<=4 exhaustive with sort on (sort off for n<=3 and for keys over {null,0,1}); for n in 2..3 also one null value, a boolean mask, a slice mask; "
+                  "int / datetime / str (U and object) keys and datetime / bool / int32 / uint values over 2..3 symbols, n<=3. "
+                  "P/L: 18 designed keys of 8..12 rows (sorted, sorted prefix longer / equal / shorter than 1/4 + disorder, unsorted, descending; groups confined to one quarter or the last row; null keys first / inside / last / a whole quarter) "
+                  "x {3 value-null patterns x sort on/off, 7 masks (boolean, slices with negative bounds, positions with and without repeats), 6 key/value kind pairs} under chunked factorisation, + Arrow chunked values, + Arrow chunked keys. "
+                  "P/A (Arrow): int keys over {0,1} and {0,1,2}, n<=3 exhaustive x every pair (contiguous or any chunking into <=3 chunks) for keys and values, + null-value and mask variants; float keys with nulls, datetime keys and values, str keys, bool values n<=2; layouts with an empty chunk n<=2. "
+                  "ops: size,count,sum,mean,min,max,first,last, groups, reductions and cumsum again on the same object after groups, ema, count/sum(transform=True), cumsum,cummax,rolling_sum,rolling_max,shift,head,nth. "
+                  "S (never cut): 10^6-1, 10^6, 10^6+1, 2*10^6, 3*10^6 rows x {unsorted float keys with nulls, sorted keys, sorted prefix of 40% + disorder} + categorical keys at 2*10^6 (int32) and 3*10^6, int32 values + mask, datetime values, str keys at 10^6; groups confined to the first rows / the middle / the last 3 rows; "
+                  "seeded random cases up to 40 rows",
+         "thorough": "as quick with T n<=5 (all patterns n<=3), P/F float keys n<=5 and other key kinds n<=4, P/A int keys over {0,1,2} n<=4 and the other kinds n<=3, 12 kernel inputs for the 24 orders, str object keys in P/L, random cases up to 96 rows"}
 RULE = ("a case = one logical call (keys or codes, value class, value-null pattern, mask, sort) + the list of execution strategies it is run under (threads / completion order / factorisation threshold / chunk layout of keys and of values); "
         "distinct = distinct canonical JSON; non-trivial = at least two groups, or a null key, or a null value, or a mask")
 ASSUMPTIONS = ["A-real: float sums and means are compared with relative tolerance 1e-9; order-insensitive results must be identical",
                "A-futures is exercised, not assumed: completion orders are forced through gates released by parallel_map's own gather loop (concurrent.futures.as_completed is wrapped to release the next task after a result was consumed)",
                "real OS schedules and data races inside numba / NumPy are not explored (tasks run one at a time under a forced order)",
-               "S family: NumPy boolean selection + nanmin/nanmax/nansum is the oracle for the million-row cases (the pure-Python specification is used for every small case)",
+               "S family: NumPy (stable argsort of the keys, per-label slices, min/max/sum of the non-null values) is the oracle for the million-row cases (the pure-Python specification is used for every small case)",
                "pyarrow construction of arrays / chunked arrays from NumPy pieces preserves the values",
                "BOUNDED: nothing here is counted as proved"]
 REQUIRED_CONTRACTS = {"numba._group_by_reduce": 1, "util.parallel_map": 1, "util.array_split_with_chunk_handling": 1, "numba._chunk_groupby_args": 1, "core.GroupBy._resolve_mask_argument_into_chunks": 1}
@@ -203,11 +208,13 @@ def cases(tier, seed):
 
 
 def extra_cases(tier, seed):
+    """16 real-size cases (one per worker process of the sharded driver)"""
     out = [{"fam": "S", "n": 10 ** 6 - 1, "layout": "unsorted", "vkind": "float", "mask": False}]
     for n in (10 ** 6, 10 ** 6 + 1, 2 * 10 ** 6, 3 * 10 ** 6):
         out.append({"fam": "S", "n": n, "layout": "unsorted", "vkind": "float", "mask": n == 2 * 10 ** 6})
-        out.append({"fam": "S", "n": n, "layout": "sorted", "vkind": "float", "mask": False})
-        out.append({"fam": "S", "n": n, "layout": "prefix", "vkind": "float", "mask": n == 10 ** 6})
+        if n != 10 ** 6 + 1:
+            out.append({"fam": "S", "n": n, "layout": "sorted", "vkind": "float", "mask": False})
+            out.append({"fam": "S", "n": n, "layout": "prefix", "vkind": "float", "mask": n == 10 ** 6})
     out.append({"fam": "S", "n": 2 * 10 ** 6, "layout": "cat", "vkind": "int32", "mask": False})
     out.append({"fam": "S", "n": 3 * 10 ** 6, "layout": "cat", "vkind": "float", "mask": False})
     out.append({"fam": "S", "n": 10 ** 6, "layout": "unsorted", "vkind": "int32", "mask": True})
@@ -461,11 +468,18 @@ def _big_data(case):
     return k, v, mask
 
 
-def _big_oracle(op, k, v, mask):
-    sel = np.ones(len(k), dtype=bool) if mask is None else mask
+def _big_groups(k, mask):
+    """label -> positions of the selected rows of the label (computed once per case)"""
+    sel = ~np.isnan(k) if mask is None else (mask & ~np.isnan(k))
+    pos = np.flatnonzero(sel); order = np.argsort(k[pos], kind="stable"); pos = pos[order]; ks = k[pos]
+    cuts = np.flatnonzero(np.diff(ks)) + 1
+    return {lab: p for lab, p in zip(ks[np.r_[0, cuts]] if len(ks) else [], np.split(pos, cuts))}
+
+
+def _big_oracle(op, groups, v):
     out = {}
-    for lab in np.unique(k[sel & ~np.isnan(k)]):
-        x = v[sel & (k == lab)]; nn = x[~np.isnan(x)] if x.dtype.kind == "f" else x[~np.isnat(x)] if x.dtype.kind == "M" else x
+    for lab, pos in groups.items():
+        x = v[pos]; nn = x[~np.isnan(x)] if x.dtype.kind == "f" else x[~np.isnat(x)] if x.dtype.kind == "M" else x
         if op == "size": out[lab] = len(x)
         elif op == "count": out[lab] = len(nn)
         elif op == "sum": out[lab] = nn.sum(dtype=np.float64 if x.dtype.kind == "f" else np.int64) if len(nn) else 0
@@ -492,8 +506,8 @@ def _check_S(sess, case):
     try: gb = construct()
     except Exception as ex:
         sess.current_case = dict(case, op="GroupBy"); sess.record("raises", "GroupBy.__init__", f"real size: constructing the GroupBy must not fail at the size where the chunked strategy switches on [{lay} keys]: {type(ex).__name__}", str(ex)[:200]); return 1
-    ref = None
-    if lay != "cat" and n >= 10 ** 6:
+    ref = None; groups = _big_groups(k, mask)
+    if lay == "unsorted" and n >= 10 ** 6:
         try: ref = construct(factorize_large_inputs_in_chunks=False)
         except Exception: ref = None
     for op in ([case["op"]] if "op" in case else [o for o in RED if case["vkind"] != "datetime" or o not in ("sum", "mean")]):      # sums / means of a million modern timestamps overflow int64 (outside every property)
@@ -502,7 +516,7 @@ def _check_S(sess, case):
             with contextlib.redirect_stdout(io.StringIO()): r = gb.size(mask=mask) if op == "size" else getattr(gb, op)(v, mask=mask)
         except Exception as ex:
             sess.record("raises", fn, f"real size: the call must not fail: {type(ex).__name__}", {"what": what, "error": str(ex)[:200]}); continue
-        exp = _big_oracle(op, k, v, mask)
+        exp = _big_oracle(op, groups, v)
         gi = [("g%02d" % int(l)) if lay == "str" else l for l in exp]
         if [x for x in r.index] != gi:
             sess.record("post", fn, "real size: labels == sorted labels with a selected row", {"what": what, "got": str(list(r.index))[:200], "expected": str(gi)[:200]}); continue
@@ -621,8 +635,8 @@ def install(sess):
         try:
             for i, a in enumerate(args):
                 try: again = func(*a)
-                except Exception as ex: return f"results[i] == func(*arg_list[i]): re-evaluation of task {i} raised {type(ex).__name__}"
-                if not _deep_same(out[i], again): return f"results[i] == func(*arg_list[i]) for every i, whatever the completion order (task {i} of {len(args)} differs)"
+                except Exception as ex: return f"results[i] == func(*arg_list[i]): re-evaluation of a task raised {type(ex).__name__}"
+                if not _deep_same(out[i], again): return "results[i] == func(*arg_list[i]) for every i, whatever the completion order"
         finally: _SCHED["perm"] = saved
     sess.wrap("groupby_lib.util", "parallel_map", ensures=post_pm, also=users)
 
